@@ -1737,6 +1737,94 @@ def gen_disk_case(r, tier):
             "vel": r.random() < 0.5, "xs": [V.dyadic(r, -4, 4, 3) for _ in range(r.randint(3, 12))]}
 
 
+
+# ------------------------------------------------------------------ multicolumn grid files in 1, 2 and 3 dimensions
+def grid_scenario(c, k):
+    L = ["echo CASE %d" % k, "natoms %d" % (2 * len(c["dims"])), "temperature 300", "dt 1.0", "prefix c%ds0" % k, "restartfreq 0", "new"]
+    conf = ["colvarsTrajFrequency 0"]
+    for i, (n, lo, w) in enumerate(c["dims"]):
+        conf += ["colvar {", "  name v%d" % i, "  lowerBoundary %r" % lo, "  upperBoundary %r" % (lo + n * w), "  width %r" % w, "  distanceZ {",
+                 "    main { atomNumbers %d }" % (2 * i + 1), "    ref { dummyAtom (0,0,0) }", "    axis (0,0,1)", "  }", "}"]
+    conf += ["histogram {", "  name b0", "  colvars " + " ".join("v%d" % i for i in range(len(c["dims"]))), "}"]
+    L += heredoc(conf) + ["show atomf 0 cv 0 bias 0 energy 0"]
+    for xs in c["xs"]:
+        for i, x in enumerate(xs):
+            L.append("pos %d 0 0 %s" % (2 * i + 1, hx(x)))
+        L.append("step")
+    L += ["postrun", "gdump", "flush", "echo END %d" % k]
+    return L
+
+
+def check_grid_case(run, c, k, impl_lines, scratch, model):
+    replay = {"kind": "grid", "case": c}
+    if any(l.startswith("CONFIG err=") and "err=ok" not in l for l in impl_lines):
+        run.mismatch("grid-run", c, [l for l in impl_lines if "err=" in l][:4], "configuration succeeds")
+        return 0
+    gh = [l for l in impl_lines if l.startswith("GH b0 ")]
+    path = os.path.join(scratch, "c%ds0.b0.dat" % k)
+    if not gh or not os.path.exists(path):
+        run.mismatch("grid-run", c, "no grid dump / file", "histogram file written at the end of the run")
+        return 0
+    data = [float.fromhex(q) for q in gh[-1].split("data=")[1].split(",")]
+    raw = open(path).read().split("\n")
+    if raw and raw[-1] == "":
+        raw.pop()
+    header = [l for l in raw if l.startswith("#")]
+    body = raw[len(header):]
+    flines = []
+    for l in body:
+        t = l.split()
+        flines.append("B" if not t else ("D", [float(q) for q in t[:len(c["dims"])]], [float(q) for q in t[len(c["dims"]):]]))
+    # ---- oracle on the file alone: header = configured geometry; blank line exactly when the last index restarts;
+    #      coordinates = bin centres in row-major order (last variable fastest)
+    nd = len(c["dims"])
+    run.dist("oracle:multicol:%dd" % nd)
+    ok_header = len(header) == nd + 1 and header[0].split() == ["#", str(nd)]
+    for i, (n, lo, w) in enumerate(c["dims"]):
+        t = header[i + 1].split() if ok_header else []
+        ok_header = ok_header and len(t) == 5 and close(float(t[1]), lo) and close(float(t[2]), w) and int(t[3]) == n
+    if not ok_header:
+        run.violation("gridfile:header", "header %s does not state the grid %s" % (header, c["dims"]), replay)
+    import itertools
+    want = []
+    for ix in itertools.product(*[range(n) for n, _, _ in c["dims"]]):
+        if ix[-1] == 0:
+            want.append("B")
+        want.append(("D", [lo + (i + 0.5) * w for i, (n, lo, w) in zip(ix, c["dims"])]))
+    got_shape = ["B" if f == "B" else ("D", f[1]) for f in flines]
+    if len(got_shape) != len(want) or any((a == "B") != (b == "B") or (a != "B" and not close(a[1], b[1])) for a, b in zip(got_shape, want)):
+        run.violation("gridfile:layout", "records/blank lines of the file do not follow the grid's index order (first lines %s, expected %s)"
+                      % (got_shape[:4], want[:4]), replay)
+    # ---- tie: the model's lines for this geometry and the values read from the object
+    line = "MULTICOL %d %s %d %s" % (nd, " ".join("%d %s %s" % (n, hx(lo), hx(w)) for n, lo, w in c["dims"]), len(data), " ".join(hx(q) for q in data))
+    rc, mout, err = V.run_lines(model, [line])
+    if rc != 0 or len(mout) != 1:
+        run.mismatch("grid-model", c, err[-300:], mout[:2])
+        return 0
+    mlines = []
+    for part in mout[0].split(" ; "):
+        if part.strip() == "B":
+            mlines.append("B")
+        else:
+            a, b = part[2:].split("|")
+            mlines.append(("D", [float.fromhex(q) for q in a.strip().split(",")], [float.fromhex(q) for q in b.strip().split(",")]))
+    if len(mlines) != len(flines) or any((a == "B") != (b == "B") for a, b in zip(flines, mlines)):
+        run.mismatch("gridfile-structure", c, len(flines), len(mlines))
+        return 0
+    for a, b in zip(flines, mlines):
+        if a != "B" and (not close(a[1], b[1]) or not close(a[2], b[2])):
+            run.mismatch("gridfile-values", c, a, b)
+            break
+    return len(flines)
+
+
+def gen_grid_case(r, tier):
+    nd = r.choice([1, 2, 2, 3])
+    dims = [(r.choice([1, 2, 3, 4] if nd > 1 else [2, 5, 8]), V.dyadic(r, -4, 2, 1), r.choice([0.5, 1.0, 2.0])) for _ in range(nd)]
+    xs = [[lo + V.dyadic(r, -0.5, n * w + 0.5, 3) for (n, lo, w) in dims] for _ in range(r.randint(3, 10))]
+    return {"kind": "grid", "dims": dims, "xs": xs}
+
+
 # ------------------------------------------------------------------ correlation function cases
 def acf_scenario(c, k):
     ty = c["vtype"]
@@ -2002,8 +2090,8 @@ def corpus_cases():
     return cs
 
 
-SCEN = {"traj": traj_scenario, "runave": runave_scenario, "acf": acf_scenario, "runavev": runavev_scenario, "out": out_scenario, "label": label_scenario, "disk": disk_scenario}
-CHECK = {"traj": check_traj_case, "runave": check_runave_case, "acf": check_acf_case, "runavev": check_runavev_case, "out": check_out_case, "label": check_label_case, "disk": check_disk_case}
+SCEN = {"traj": traj_scenario, "runave": runave_scenario, "acf": acf_scenario, "runavev": runavev_scenario, "out": out_scenario, "label": label_scenario, "disk": disk_scenario, "grid": grid_scenario}
+CHECK = {"traj": check_traj_case, "runave": check_runave_case, "acf": check_acf_case, "runavev": check_runavev_case, "out": check_out_case, "label": check_label_case, "disk": check_disk_case, "grid": check_grid_case}
 
 
 def run_cases(run, cases, unit, model, scratch):
@@ -2050,6 +2138,8 @@ def run_cases(run, cases, unit, model, scratch):
             run.dist("label")
         elif c["kind"] == "disk":
             run.dist("disk:R=%d" % c["R"])
+        elif c["kind"] == "grid":
+            run.dist("grid:%dd" % len(c["dims"]))
         elif c["kind"] == "out":
             run.dist("out:R=%d" % c["R"])
         elif c["kind"] == "runavev":
@@ -2100,6 +2190,8 @@ def check(run):
         cases.append(gen_label_case(r, run.tier))
     for _ in range(30 * mult):
         cases.append(gen_disk_case(r, run.tier))
+    for _ in range(30 * mult):
+        cases.append(gen_grid_case(r, run.tier))
     total = run_cases(run, cases, unit, model, scratch)
     run.cov["rule"] = ("a case is one scenario (trajectory / running average / correlation function) driven through the engine "
                        "simulator; distinct = distinct configuration+length; nontrivial = at least one written number was compared")
